@@ -318,6 +318,7 @@ CHECKS = {
         "timeout": {"quick": 400, "thorough": 2400},
         "jobs": [
             job("history", "c08", ["TestC08History"], 130, 2500, 4, 12),
+            job("atlock", "c08", ["TestC08CommitAtLock"], 250, 5000, 2, 8),
         ],
     },
     "C07": {
@@ -349,7 +350,7 @@ CHECKS = {
                  "plus database/sql result sets read for k rows then closed / cancelled / drained. Non-trivial = at least one side action ran. Distinct = fingerprint of the spec."),
         "assumptions": ["Linux POSIX record locks; system libsqlite3 (3.40.1) is the writer"],
         "min_nontrivial": {"quick": 150, "thorough": 3000},
-        "required_classes": ["exit:normal", "exit:stop", "exit:error-column", "exit:fault", "exit:panic", "side:commit-attempt", "side:peer-hold", "side:other-file", "side:same-process-read", "side:nested-call-inside-callback", "op:IndexedSelect-wr", "driver:cancel", "writer:open-txn", "writer:hot-journal", "writer:raw-exclusive", "concurrent:procs="],
+        "required_classes": ["exit:normal", "exit:stop", "exit:error-column", "exit:fault", "exit:panic", "side:commit-attempt", "side:peer-hold", "side:other-file", "side:same-process-read", "side:nested-call-inside-callback", "side:same-process-close-then-read", "op:IndexedSelect-wr", "driver:cancel", "writer:open-txn", "writer:hot-journal", "writer:raw-exclusive", "concurrent:procs="],
         "timeout": {"quick": 400, "thorough": 2400},
         "jobs": [
             job("held", "c06", ["TestC06Held"], 220, 4000, 3, 10),
